@@ -7,4 +7,9 @@ require (
 	pgregory.net/rapid v1.3.0
 )
 
+require (
+	golang.org/x/sys v0.47.0 // indirect
+	golang.org/x/term v0.45.0 // indirect
+)
+
 replace mvdan.cc/sh/v3 => /repo
